@@ -40,7 +40,7 @@ def _feat(cfg, avoid=()):
 
 PROFILE = {
     "feat": _feat,
-    "edits": ["ext", "ver", "var", "ext", "unrelated", "lzver"],
+    "edits": ["ext", "ver", "var", "ext", "unrelated", "lzver", "bfver"],
     "n": (4, 9),
     "p_restart": 1.0,
     "p_revert": 0.0,
@@ -165,7 +165,7 @@ def run_case(case):
                             diff = sorted(p for p in set(s0) | set(s1) if s0.get(p) != s1.get(p))
                             w.violate("C14.outside", f"op {o['i']} eval {o['entry']}: an edit of non-accepted code ({ed}) changed "
                                                      f"the signature of {diff}")
-                    elif ed["kind"] in ("ver", "var", "lzver"):
+                    elif ed["kind"] in ("ver", "var", "lzver", "bfver"):
                         probe("inside_edit_compared")
                         nontrivial = True
                         # lower bound of what a signature depends on: the static content of the kept function itself
@@ -187,6 +187,8 @@ def run_case(case):
                                     continue
                                 member = ("text", "\n".join(_ir.render_func(pb, ed["f"])))
                                 hit = member in sc
+                            elif ed["kind"] == "bfver":
+                                hit = any(m[0] == "helper" and m[1] in _ir.BUILTIN_NAMES for m in sc)
                             elif ed["kind"] == "lzver":
                                 hit = any(m[0] == "lazy" for m in sc)      # the lazily imported accepted library
                             else:
